@@ -7,10 +7,12 @@
 (* normalised after every operation to keep denominators small.            *)
 EXTENDS Integers
 
-RECURSIVE GCD(_, _)
-GCD(a, b) == IF b = 0 THEN (IF a < 0 THEN -a ELSE a) ELSE GCD(b, a % b)
-
 Abs(x) == IF x < 0 THEN -x ELSE x
+
+(* total on all integers (a recorded "not a small rational" marker <<0, -1>> has a negative          *)
+(* denominator; TLC's % insists on a positive modulus)                                              *)
+RECURSIVE GCD(_, _)
+GCD(a, b) == IF b = 0 THEN Abs(a) ELSE GCD(Abs(b), Abs(a) % Abs(b))
 
 RNorm(r) == LET g == GCD(Abs(r[1]), r[2]) IN
             IF g = 0 THEN <<0, 1>> ELSE <<r[1] \div g, r[2] \div g>>
